@@ -15,6 +15,11 @@ extra.update({"C01-4": ["C08"], "C02-4": ["C08", "C11"], "C03-3": ["C08", "C09"]
 extra.update({"C01-7": ["C02"], "C02-7": ["C08"], "C02-8": ["C01", "C05"], "C03-8": ["C08", "C09"], "C04-8": ["C09"], "C05-8": ["C10"], "C06-8": ["C17"],
               "C07-7": ["C12"], "C08-7": ["C11"], "C08-8": ["C17"], "C09-7": ["C08", "C11"], "C10-7": ["C03", "C05"], "C11-8": ["C08", "C01"],
               "C12-8": ["C07"], "C13-8": ["C20"], "C17-8": ["C06"], "C19-8": ["C11"]})
+# round 5
+extra.update({"C20-9": ["C11", "C07"], "C13-9": ["C15"], "C16-9": ["C08", "C17"], "C16-10": ["C12"], "C08-10": ["C18"], "C11-10": ["C07", "C12"],
+              "C12-10": ["C07"], "C07-9": ["C12", "C13"], "C03-9": ["C09", "C08"], "C04-9": ["C09"], "C09-10": ["C03", "C08"], "C03-10": ["C05", "C10"],
+              "C05-9": ["C13"], "C10-9": ["C05"], "C10-10": ["C16"], "C19-10": ["C10", "C16"], "C01-10": ["C08"], "C02-10": ["C01"], "C18-9": ["C08"],
+              "C06-9": ["C11"], "C01-9": ["C11"], "C02-9": ["C11"], "C04-10": ["C11"], "C12-9": ["C11"], "C09-9": ["C11"], "C14-9": ["C11"]})
 only = sys.argv[1:]
 rows = []
 for d in sorted(glob.glob(V + "/seeded/C*-*")):
